@@ -62,13 +62,14 @@ func c16N() int {
 type c16M struct {
 	n      int
 	tables map[string]*sysl.Type
-	refs   []int // refs[i] = j: table i column r references table j (j<i), or -1
+	refs   []int  // refs[i] = j: table i column r references table j (j<i), or -1
+	viaR   []bool // viaR[i]: that reference targets column r of table j (itself a value or a reference) instead of its key
 	tline  []int
 }
 
 func c16Model(distinctLines bool) *c16M {
 	n := c16N()
-	m := &c16M{n: n, tables: map[string]*sysl.Type{}, refs: make([]int, n), tline: make([]int, n)}
+	m := &c16M{n: n, tables: map[string]*sysl.Type{}, refs: make([]int, n), viaR: make([]bool, n), tline: make([]int, n)}
 	for i := 0; i < n; i++ {
 		tag := string(rune('0' + i))
 		m.tline[i] = nd.SymRange("tline"+tag, 1, 40)
@@ -87,7 +88,12 @@ func c16Model(distinctLines bool) *c16M {
 		cols["id"] = c16Prim(sysl.Type_INT, l1, 0, "pk")
 		m.refs[i] = nd.IntRange("ref"+tag, -1, i-1)
 		if m.refs[i] >= 0 {
-			cols["r"] = c16Ref(c16Tables[m.refs[i]], "id", l2)
+			m.viaR[i] = nd.Bool("ref" + tag + "-targets-column-r")
+			col := "id"
+			if m.viaR[i] {
+				col = "r"
+			}
+			cols["r"] = c16Ref(c16Tables[m.refs[i]], col, l2)
 		} else {
 			cols["r"] = c16Prim(sysl.Type_STRING, l2, 30)
 		}
@@ -121,8 +127,20 @@ func c16CheckCreate(m *c16M, out string, suffix string) {
 		nd.Assert("create:column-id-once"+suffix, strings.Count(block, "\n  id integer,") == 1)
 		nd.Assert("create:column-v-once"+suffix, strings.Count(block, "\n  v varchar (50),") == 1)
 		if m.refs[i] >= 0 {
-			nd.Assert("create:column-r-once"+suffix, strings.Count(block, "\n  r integer,") == 1)
-			fk := "CONSTRAINT " + strings.ToUpper(c16Tables[i]) + "_R_FK FOREIGN KEY(r) REFERENCES " + c16Tables[m.refs[i]] + " (id)"
+			// the column has the type of the column it refers to, through any chain of references
+			typ, col := "integer", "id"
+			if m.viaR[i] {
+				col = "r"
+				j := m.refs[i]
+				for m.refs[j] >= 0 && m.viaR[j] {
+					j = m.refs[j]
+				}
+				if m.refs[j] < 0 {
+					typ = "varchar (30)"
+				}
+			}
+			nd.Assert("create:reference-column-has-the-type-of-its-target"+suffix, strings.Count(block, "\n  r "+typ+",") == 1)
+			fk := "CONSTRAINT " + strings.ToUpper(c16Tables[i]) + "_R_FK FOREIGN KEY(r) REFERENCES " + c16Tables[m.refs[i]] + " (" + col + ")"
 			nd.Assert("create:foreign-key"+suffix, strings.Count(block, fk) == 1)
 			nd.Assert("create:referenced-table-first"+suffix, pos[m.refs[i]] >= 0 && pos[m.refs[i]] < pos[i])
 		} else {
@@ -135,6 +153,7 @@ func c16CheckCreate(m *c16M, out string, suffix string) {
 
 // creation script when source lines may coincide (tables from two files that
 // start on the same line; columns are always on distinct lines of one file)
+//
 //verif:shard-quick 16 12
 //verif:shard-thorough 16 14
 func Harness_C16_Create() {
@@ -179,6 +198,7 @@ func c16TypeName(state int) string {
 
 // Delta between two versions of table ta (columns id, x, y) next to an
 // unchanged table tb: statement-level soundness of the emitted DDL.
+//
 //verif:shard-quick 8 4
 //verif:shard-thorough 8 4
 func Harness_C16_Delta() {
